@@ -47,10 +47,12 @@ class CSemantics:
         if self.context.sizeof(self.int_type) == self.context.sizeof(
             self.intptr_type
         ):
-            self.size_t_type = self.int_type
+            self.ptrdiff_t_type = self.int_type
+            self.size_t_type = self.get_type(["unsigned", "int"])
         else:
             # TODO: this might be 4 bytes on LP64 mode:
-            self.size_t_type = self.long_type
+            self.ptrdiff_t_type = self.long_type
+            self.size_t_type = self.get_type(["unsigned", "long"])
 
         # Working variables:
         self.compounds = []
@@ -693,42 +695,37 @@ class CSemantics:
     def on_number(self, value, location):
         """React on integer numeric literal"""
         # Get value from string:
-        value, type_specifiers = utils.cnum(value)
+        text = value
+        value, type_specifiers = utils.cnum(text)
 
         assert isinstance(value, int)
-        if type_specifiers:
-            typ = self.get_type(type_specifiers)
+
+        # The type of an integer constant is the first type of a list in
+        # which its value fits. The list depends on the suffix and on
+        # whether the constant is decimal (C99 6.4.4.1):
+        is_decimal = not text.startswith("0")
+        is_unsigned = "unsigned" in type_specifiers
+        min_rank = type_specifiers.count("long")
+        candidates = []
+        for rank, specifiers in enumerate((["int"], ["long"], ["long", "long"])):
+            if rank < min_rank:
+                continue
+            if not is_unsigned:
+                candidates.append(self.get_type(specifiers))
+            if is_unsigned or not is_decimal:
+                candidates.append(self.get_type(["unsigned"] + specifiers))
+
+        for typ in candidates:
+            if value <= self.context.limit_max(typ):
+                break
         else:
-            # Use larger type to fit the value if required:
-            # Try unsigned long,
-            ulonglong_type = self.get_type(["unsigned", "long", "long"])
-            longlong_type = self.get_type(["long", "long"])
-            ulong_type = self.get_type(["unsigned", "long"])
-            long_type = self.get_type(["long"])
-            uint_type = self.get_type(["unsigned", "int"])
-
-            if value <= self.context.limit_max(self.int_type):
-                typ = self.int_type
-            elif value <= self.context.limit_max(uint_type):
-                typ = uint_type
-            elif value <= self.context.limit_max(long_type):
-                typ = long_type
-            elif value <= self.context.limit_max(ulong_type):
-                typ = ulong_type
-            elif value <= self.context.limit_max(longlong_type):
-                typ = longlong_type
-            else:
-                typ = ulonglong_type
-
-        assert typ.is_integer
-        # Check limits of integer
-        # Note, an integer is always positive
-        max_value = self.context.limit_max(typ)
-        if value > max_value:
+            max_value = self.context.limit_max(candidates[-1])
             self.error(
                 f"Integer value too big for type ({max_value})",
                 location,
             )
+
+        assert typ.is_integer
         return expressions.NumericLiteral(value, typ, location)
 
     def on_float(self, value, location):
@@ -741,7 +738,14 @@ class CSemantics:
         """Process a character literal"""
         # Get value from string:
         char_value, kind = utils.charval(value)
-        typ = self.get_type(kind)
+        if kind == ["char"]:
+            # A character constant has type int, and the value of an
+            # object of type char (which is signed) holding the character:
+            if 128 <= char_value < 256:
+                char_value -= 256
+            typ = self.int_type
+        else:
+            typ = self.get_type(kind)
         return expressions.CharLiteral(char_value, typ, location)
 
     def on_ternop(self, lhs, op, mid, rhs, location):
@@ -857,7 +861,7 @@ class CSemantics:
                             location,
                         )
 
-                    result_typ = self.size_t_type
+                    result_typ = self.ptrdiff_t_type
 
                 else:
                     # pointer - integer
@@ -1184,6 +1188,8 @@ class CSemantics:
         if isinstance(declaration, declarations.VariableDeclaration):
             lvalue = True
         elif isinstance(declaration, declarations.EnumConstantDeclaration):
+            # An enumeration constant has type int:
+            typ = self.int_type
             lvalue = False
         elif isinstance(declaration, declarations.ParameterDeclaration):
             lvalue = True
